@@ -25,13 +25,21 @@ EXTENDS TimeLabels, FiniteSets, SequencesExt
 Ev(kind, tm, name, ex, et) == [ev |-> kind, tm |-> tm, name |-> name, ex |-> ex, et |-> et]
 BadEv == Ev("bad", 0, "", FALSE, 0)
 
+\* A statement whose call has a difficulty switch `(a:b::d)` among its arguments stands for one
+\* instruction per written case (doc/syntax.md, "Difficulty switches"), all at the statement's time.
+ExplicitCases(e) == Cardinality({i \in 1..Len(e.cases) : e.cases[i].k # "hole"})
+Copies(s) ==
+    IF s.e.k = "call" /\ HasField(s.e, "args") /\ \E i \in 1..Len(s.e.args) : s.e.args[i].k = "ds"
+    THEN ExplicitCases(s.e.args[CHOOSE i \in 1..Len(s.e.args) : s.e.args[i].k = "ds"])
+    ELSE 1
+
 \* the events of an annotated block in lexical order: instructions, jumps and labels
 RECURSIVE LinFrom(_, _, _)
 LinFrom(ablk, i, path) ==
     IF i > Len(ablk) THEN <<>>
     ELSE LET s == ablk[i]
              here ==
-               CASE s.k = "expr" -> << Ev("ins", s.tm, "", FALSE, 0) >>
+               CASE s.k = "expr" -> [c \in 1..Copies(s) |-> Ev("ins", s.tm, "", FALSE, 0)]
                  [] s.k = "jump" ->
                       IF s.jump = "goto"
                       THEN << Ev("jmp", s.tm, s.label, HasField(s, "time"), IF HasField(s, "time") THEN s.time ELSE 0) >>
